@@ -42,7 +42,7 @@ check("C09", "fault_enumeration",
       "bound derived from the idle GeckoConfig; network healthy for ever after the script; two recorded known findings (ERROR_SPA_NOT_FOUND terminal, reset in the last steps of a connection attempt).",
       "exhaustive crash-point injection + enumerated fault scripts on the real stack (bounded liveness)", "DESIGN.md §2 C09", "E1+E2+E3")
 check("C10", "fault_enumeration",
-      "Whole async stack: async_reset and context exit injected at every loop step through discovery/handshake/early steady state and a stride through the periodic tail, blackout and error states (+ first steps of every state, RF-error/slow-client, yielding-client, failed-send and corrupted-config-file baselines, the library's own ping-triggered resets, timer deviations before the injection, reconnect cycles); every endpoint/task existing at the injection must be closed/done promptly, late datagrams to old endpoints must not reach client observers, resources must not grow over cycles.",
+      "Whole async stack: async_reset and context exit injected at every loop step through discovery/handshake/early steady state and a stride through the periodic tail, blackout and error states (+ first steps of every state, RF-error/slow-client, yielding-client, failed-send and corrupted-config-file baselines, the library's own ping-triggered resets, partial updates inside the teardown window, timer deviations before the injection, reconnect cycles); every endpoint/task existing at the injection must be closed/done promptly, late datagrams to old endpoints must not reach client observers, resources must not grow over cycles.",
       "endpoints = VTransports handed out by the harness loop; 'promptly' = 5 virtual s (12 s for a discovery legitimately in progress); known finding: context exit leaves the spa endpoint open.",
       "exhaustive crash-point injection with resource accounting on the real stack", "DESIGN.md §2 C10", "E1+E2+E3")
 check("C15", "model_checking",
@@ -75,7 +75,7 @@ check("C12", "exploration",
       "quick: every cfg with the latest log and every log with the latest cfg; thorough: all 895.",
       "exhaustive wiring enumeration against an independent inventory model", "DESIGN.md §2 C12", "E6")
 check("C13", "model_checking",
-      "Whole async stack really connected to a spa model (real simulator + applies writes/key presses, follows demands, stores watercare mode, echoes STATP): every device x every current state x every argument (+ command pairs, + commands issued at every phase of the client's own background GETWC/REQRM/STATU/APING requests); blocking facade on the stepped engine; exactly one well-formed command (none when already there), pack type/versions/position/value/sequence range decoded by the reference codec, spa-side effect and client read-back after the echo.",
+      "Whole async stack really connected to a spa model (real simulator + applies writes/key presses, follows demands, stores watercare mode, echoes STATP): every device x every current state x every argument (+ command pairs, + commands issued at every phase of the client's own background GETWC/REQRM/STATU/APING requests, also when that request is lost once, + every running level of a switch as current state); blocking facade on the stepped engine; exactly one well-formed command (none when already there), pack type/versions/position/value/sequence range decoded by the reference codec, spa-side effect and client read-back after the echo.",
       "the spa's reaction to commands is modelled (documented in props/c13.py); the ping-gate drop after a mode switch is a recorded known finding.",
       "exhaustive command enumeration on the real stack against a spa model", "DESIGN.md §2 C13", "E1+E2")
 check("C14", "exploration",
